@@ -34,9 +34,11 @@ type sobs struct {
 }
 
 func hopByName(n string) hop {
-	for _, h := range hops {
-		if h.Name == n {
-			return h
+	for _, hs := range [][]hop{hops, methLetters} {
+		for _, h := range hs {
+			if h.Name == n {
+				return h
+			}
 		}
 	}
 	panic("no op " + n)
@@ -127,8 +129,8 @@ func runSched(p sparams) func(e *schedx.Exec) *schedx.Outcome {
 			// the hit must be ONE origin response of this path, in all stored aspects
 			found := ""
 			for xv, w := range o.log {
-				if !strings.HasPrefix(xv, hp.Path+"#") {
-					continue
+				if !strings.HasPrefix(xv, hp.Path+"#") || w.M != hp.Method {
+					continue // "for the same method and key"
 				}
 				if w.Status == ob.R.Status && w.Body == ob.R.Body && w.CT == ob.R.CT && w.Enc == ob.R.Enc && (!p.Cfg.Headers || w.XV == ob.R.XV) {
 					found = xv
@@ -204,6 +206,8 @@ func schedScenarios() []schedx.Scenario {
 		add("three-keys-over-maxbytes-"+st, sparams{Cfg: mb, Racers: []sop{{ID: "r1", Op: "get-a"}, {ID: "r2", Op: "get-b"}, {ID: "r3", Op: "get-c"}}, Probe: probe}, b2, b2, false)
 		nb := ccfg{Storage: st, MaxBytes: 0, Headers: true}
 		add("hit-vs-nocache-refresh-"+st, sparams{Cfg: nb, Warm: []sop{{ID: "w1", Op: "get-a"}}, Racers: []sop{{ID: "r1", Op: "get-a"}, {ID: "r2", Op: "nocache-a"}}, Probe: []sop{{ID: "p1", Op: "get-a"}}}, b2, b3, false)
+		add("hit-vs-evicting-store-"+st, sparams{Cfg: mb, Warm: []sop{{ID: "w1", Op: "get-a"}, {ID: "w2", Op: "get-b"}}, Racers: []sop{{ID: "r1", Op: "get-a"}, {ID: "r2", Op: "get-c"}}, Probe: probe}, b2, b3, false)
+		add("head-vs-get-same-path-"+st, sparams{Cfg: mb, Racers: []sop{{ID: "r1", Op: "get-a"}, {ID: "r2", Op: "head-a"}}, Probe: append([]sop{{ID: "p0", Op: "head-a"}}, probe...)}, b2, b3, false)
 		add("hit-vs-invalidate-"+st, sparams{Cfg: mb, Warm: []sop{{ID: "w1", Op: "get-a"}}, Racers: []sop{{ID: "r1", Op: "get-a"}, {ID: "r2", Op: "inval-a"}}, Probe: probe}, b2, b3, false)
 	}
 	return out
